@@ -12,7 +12,8 @@ Proof. split; [apply app_eq_nil|intros [-> ->]; reflexivity]. Qed.
 
 (* what the router-level checker demands of an observation *)
 Definition router_prop (o : robs) : Prop :=
-  o_late o = 0 /\ count_true (o_open o) = 0 /\ o_goroutines o = 0 /\ o_rebind o = true /\
+  o_late o = 0 /\ (count_true (o_open o) = 0 /\ open_only_exempt (o_open_ret o) (o_exempt_ret o) = true) /\
+  o_goroutines o = 0 /\ o_rebind o = true /\
   (forall r, In r (o_sends o) -> r <> RPending) /\ o_panic o = false /\
   (forall b, In b (o_stops o) -> b = true) /\ o_inprogress o = 0.
 
@@ -20,16 +21,16 @@ Theorem check_router_iff o : check_router o = [] <-> router_prop o.
 Proof.
   unfold check_router, router_prop.
   rewrite !app_nil_iff, !clause_nil.
-  rewrite !Nat.eqb_eq, negb_true_iff, !forallb_forall.
+  rewrite andb_true_iff, !Nat.eqb_eq, negb_true_iff, !forallb_forall.
   split.
-  - intros (A & B & C & D & E & F & G & H). repeat split; auto.
+  - intros (A & B & C & D & E & F & G & H). repeat split; try tauto; auto.
     + intros r Hr Hp. specialize (E r Hr). subst. discriminate.
-  - intros (A & B & C & D & E & F & G & H). repeat split; auto.
+  - intros (A & B & C & D & E & F & G & H). repeat split; try tauto; auto.
     intros r Hr. specialize (E r Hr). destruct r; auto; congruence.
 Qed.
 
 Definition server_prop (o : sobs) : Prop :=
-  s_late o = 0 /\ s_goroutines o = 0 /\ s_ports o = true /\ s_db o = true /\
+  s_late o = 0 /\ s_conns_open o = 0 /\ s_goroutines o = 0 /\ s_ports o = true /\ s_db o = true /\
   s_ops_pending o = 0 /\ s_panic o = false /\ s_returned o = true /\ s_instances o = 0.
 
 Theorem check_server_iff o : check_server o = [] <-> server_prop o.
@@ -43,6 +44,7 @@ Qed.
    (goroutines, port) are given their logical counterparts: no handler alive, listener off *)
 Definition obs_of_state (s : state) : robs :=
   mkRobs (map model_send (senders s)) (map stop_done (stops s)) (map lopen (conns s))
+         (map lopen (conns s)) (map (fun _ => false) (conns s))
          (dispatched s) (late s)
          (if stop_returned s then count_live (conns s) else 0)
          (crashed s) (count_live (conns s)) (negb (listening s)).
@@ -69,6 +71,11 @@ Proof.
   - apply (inv_late _ _ I).
   - apply count_true_zero. intros b Hb. apply in_map_iff in Hb as (k & <- & Hk).
     apply In_nth_error in Hk as [c Hc']. eauto.
+  - assert (G : forall l, (forall k, In k l -> lopen k = false) ->
+                open_only_exempt (map lopen l) (map (fun _ : conn => false) l) = true).
+    { induction l as [|k r IH]; intros Hall; cbn; auto. rewrite (Hall k (or_introl eq_refl)). cbn.
+      apply IH. intros k' Hk'. apply Hall. now right. }
+    apply G. intros k Hk. apply In_nth_error in Hk as [c Hc']. eauto.
   - intros r Hin Hp. apply in_map_iff in Hin as (p & <- & Hp').
     rewrite forallb_forall in Qs. specialize (Qs _ Hp'). destruct p as [| | | |[|]]; cbn in *; discriminate.
   - apply (inv_crash _ _ I).
@@ -206,4 +213,14 @@ Proof.
     destruct m; cbn [do_smacro]; try (now apply ctry_reach); try (now apply close_go_reach).
     destruct (closing (ctry s (ATimerDelete j))); [apply close_go_reach|]; now apply ctry_reach. }
   apply G. exists []. reflexivity.
+Qed.
+
+(* the run that keeps the snapshot and the strictness flag is the same run *)
+Lemma exec_full_xs fx tcp ms : xs (rx (exec_full fx tcp ms)) = exec fx tcp ms.
+Proof.
+  unfold exec_full, exec.
+  assert (G : forall r0, xs (rx (fold_left (run_step fx tcp) ms r0)) =
+                         xs (fold_left (fun x m => settle fx (do_macro fx tcp x m)) ms (rx r0))).
+  { induction ms as [|m r IH]; intros r0; cbn [fold_left]; auto. rewrite IH. reflexivity. }
+  apply G.
 Qed.
